@@ -40,6 +40,7 @@ pub struct Pattern {
     src: String,
     anchored_regex: Regex,
     prefix_regex: Regex,
+    case_insensitive: bool,
     dot_matches_new_line: bool,
 }
 
@@ -98,6 +99,7 @@ impl Pattern {
                 src: pattern,
                 anchored_regex,
                 prefix_regex: prefix_regex.unwrap(),
+                case_insensitive: opts.case_insensitive,
                 dot_matches_new_line: dot_nl,
             }),
             Err(e) => Err(PatternError {
@@ -298,7 +300,7 @@ impl Add<Pattern> for Pattern {
 
     fn add(self, rhs: Pattern) -> Self::Output {
         let opts = PatternOpts {
-            case_insensitive: false,
+            case_insensitive: self.case_insensitive || rhs.case_insensitive,
             dot_matches_new_line: self.dot_matches_new_line || rhs.dot_matches_new_line,
         };
         Pattern::regex_with((self.to_string() + &rhs.to_string()).as_str(), &opts).unwrap()
